@@ -198,6 +198,15 @@ func trieType() typeDef {
 			{"LongestPrefix", func(i any, g *gctx) { p, _ := i.(T).LongestPrefix("abcd"); g.sink += len(p) }},
 			{"StartsWith+drain", func(i any, g *gctx) { q, _ := i.(T).StartsWith("a"); drain(q, g) }},
 			{"Keys+drain", func(i any, g *gctx) { q, _ := i.(T).Keys(); drain(q, g) }},
+			// rejected inputs (their early-return paths take and release the lock too)
+			{"LongestPrefix(empty)", func(i any, g *gctx) { p, _ := i.(T).LongestPrefix(""); g.sink += len(p) }},
+			{"StartsWith(empty)", func(i any, g *gctx) {
+				if q, err := i.(T).StartsWith(""); err == nil {
+					drain(q, g)
+				}
+			}},
+			{"Get(empty)", func(i any, g *gctx) { v, _ := i.(T).Get(""); g.sink += v }},
+			{"Contains(absent)", func(i any, g *gctx) { _ = i.(T).Contains("zzz") }},
 		},
 		Sanity: func(i any) error {
 			t := i.(T)
